@@ -345,6 +345,49 @@ func c12(c *core.Ctx) {
 		}
 		c12EAP(k, mu, false, "eap-mutated")
 	})
+	// sizes around powers of two: attribute boundaries are steered onto every 4-octet position within +-16 of
+	// 512 ... 32768 (buffered readers, slice growth steps and length arithmetic change behaviour there), with more
+	// attributes following the boundary
+	thresholds := []int{512, 1024, 2048, 4096, 8192, 16384}
+	c.Family("aka-size-thresholds", len(thresholds)*9, func(k *core.Case) {
+		th := thresholds[k.Index/9]
+		target := th + (k.Index%9-4)*4 // packet offset at which an attribute boundary shall fall
+		// packet: 8 octets (EAP header 4, type 1, subtype 1, reserved 2), then attributes
+		a := &abs.AKA{Subtype: 1}
+		a.Attrs = append(a.Attrs, abs.AKAAttr{Type: abs.ATRand, Value: gen.DataN(k.R, 16)})
+		used := 8 + 20
+		ft := uint8(129) // skippable attribute types without a dedicated reader, ascending
+		for used < target {
+			n := target - used
+			if n > 1020 {
+				n = 1020
+			}
+			if rest := target - used - n; rest > 0 && rest < 4 {
+				n -= 4
+			}
+			if n < 4 {
+				break
+			}
+			a.Attrs = append(a.Attrs, abs.AKAAttr{Type: ft, Value: gen.DataN(k.R, n-4)})
+			used += n
+			ft++
+		}
+		// what follows the boundary
+		a.Attrs = append(a.Attrs, abs.AKAAttr{Type: 200, Value: gen.DataN(k.R, 8)}, abs.AKAAttr{Type: 201, Value: gen.DataN(k.R, 4)})
+		e := &abs.EAP{Code: 1, ID: k.R.Byte(), Method: &abs.Method{Type: abs.MAkaPrime, AKA: a}}
+		b, err := ref.EncodeEAP(e, &ref.Opts{AKAOrder: true})
+		if err != nil {
+			return
+		}
+		k.Count("aka_packets_with_a_boundary_at_a_size_threshold", 1)
+		c12EAP(k, b, true, "aka-size-thresholds")
+		// the same inside an IKE message
+		if len(b)+4 <= 0xffff {
+			body := append([]byte{0, 0, byte((len(b) + 4) >> 8), byte(len(b) + 4)}, b...)
+			hdr := &abs.Msg{ISPI: 1, RSPI: 2, Major: 2, Exch: 35, Flags: 0x08, MsgID: 4}
+			c12Msg(k, append(ref.EncodeHeader(hdr, abs.PEAP, 28+len(body)), body...), true, "aka-size-thresholds")
+		}
+	})
 	c.Family("aka-window", 256, func(k *core.Case) {
 		at := byte(k.Index)
 		for al := 0; al <= 9; al++ {
@@ -369,7 +412,7 @@ func c12(c *core.Ctx) {
 			}
 		}
 	})
-	c.Require("reencoding_identical", "reencoding_normalised", "eap_reencoding_identical", "eap_reencoding_normalised")
+	c.Require("aka_packets_with_a_boundary_at_a_size_threshold", "reencoding_identical", "reencoding_normalised", "eap_reencoding_identical", "eap_reencoding_normalised")
 }
 
 // ---------------------------------------------------------------------------
@@ -612,13 +655,78 @@ func c13(c *core.Ctx) {
 		}
 		k.Distinct(fmt.Sprintf("beforeSK|%s|%v|%d|%v", s.Name(), pre, n, anyCrit))
 	})
+	// unsupported payloads INSIDE the Encrypted payload (the inner chain of a protected message), also as the only
+	// content (base message without payloads): same rule after unprotection
+	c.Family("inside-SK", c.N(36*40, 36*6000), func(k *core.Case) {
+		s, init, pre := cell(k.Index % 36)
+		raw := libsa.RandomRaw(k.R, s)
+		base := gen.Msg(k.R, gen.Opt{Protected: true, MaxPayloads: 3, AllowEmpty: true})
+		if k.Index%4 == 0 {
+			base.Payloads = nil
+		}
+		n := 1 + k.R.Intn(3)
+		anyCrit := false
+		all := append([]abs.Payload{}, base.Payloads...)
+		where := ""
+		for i := 0; i < n; i++ {
+			p := abs.Payload{Kind: types[k.R.Intn(len(types))], Data: k.R.Bytes(k.R.Pick(0, 1, 4, 17, 300)), Crit: k.R.Chance(1, 5)}
+			anyCrit = anyCrit || p.Crit
+			pos := k.R.Intn(len(all) + 1)
+			all = append(all[:pos], append([]abs.Payload{p}, all[pos:]...)...)
+			where += fmt.Sprint(pos, ",")
+		}
+		inner, first, err := ref.EncodeChain(all, &ref.Opts{Noise: k.R.Byte})
+		if err != nil {
+			return
+		}
+		padn := (16 - (len(inner)+1)%16) % 16
+		if 4+16+len(inner)+padn+1+s.ICVLen() > 0xffff {
+			return
+		}
+		wire, err := ref.ProtectRaw(base, first, inner, s, raw.Dir(init), k.R.Bytes(16), k.R.Bytes(padn), nil)
+		if err != nil {
+			return
+		}
+		key, kerr := libsa.NewKey(raw)
+		if kerr != nil {
+			return
+		}
+		k.Eval(1)
+		d, derr, p := libUnprotect(wire, pre, key, !init)
+		w := M{"base": msgJSON(base), "wire": core.HexClip(wire, 2048), "inserted_at": where, "any_critical": anyCrit, "suite": s.Name(), "keys": raw.JSON(), "preparsed_header": pre}
+		if p != nil {
+			k.Violate("panic", "inside-SK: "+p.Sig(), "panic", panicData(p, w))
+			return
+		}
+		if anyCrit {
+			if derr == nil {
+				k.Violate("accepted", "critical-unsupported-accepted/inside-SK", "", w)
+				return
+			}
+			k.Count("inside_SK_rejected_critical", 1)
+		} else {
+			if derr != nil {
+				k.Violate("decode-error", "noncritical-unsupported-rejected/inside-SK: "+classifyErr(derr), errStr(derr), w)
+				return
+			}
+			if !abs.Equal(base, d) {
+				k.Violate("mismatch", "skip-changes-message/inside-SK: "+diffClass(base, d), abs.Diff(base, d), w)
+				return
+			}
+			k.Count("inside_SK_skipped_ok", 1)
+			if len(base.Payloads) == 0 {
+				k.Count("inside_SK_only_unsupported_payloads", 1)
+			}
+		}
+		k.Distinct(fmt.Sprintf("insideSK|%s|%v|%d|%v|%d", s.Name(), pre, n, anyCrit, minI(len(base.Payloads), 2)))
+	})
 	c.Family("critical-on-implemented", c.N(12000, 3000000), func(k *core.Case) {
 		base := gen.Msg(k.R, gen.Opt{MaxPayloads: 5})
 		c13One(k, base, nil, nil, &ref.Opts{CritKnown: func() bool { return true }}, "critical-on-implemented")
 		k.Count("critical_on_implemented", 1)
 		k.Distinct("crit-known|" + abs.Kinds(base))
 	})
-	c.Require("presented_three_times_with_one_parsed_header", "before_SK_rejected_critical", "before_SK_skipped_ok", "rejected_critical", "skipped_ok", "position_front", "position_middle", "position_end", "critical_on_implemented")
+	c.Require("inside_SK_rejected_critical", "inside_SK_skipped_ok", "inside_SK_only_unsupported_payloads", "presented_three_times_with_one_parsed_header", "before_SK_rejected_critical", "before_SK_skipped_ok", "rejected_critical", "skipped_ok", "position_front", "position_middle", "position_end", "critical_on_implemented")
 }
 
 var _ = message.TypeSK
